@@ -21,9 +21,19 @@ import (
 
 var (
 	VerifDir   = verifDir()
-	RepoDir    = "/repo"
+	RepoDir    = envOr("VERIF_REPO", "/repo")
 	HarnessDir = VerifDir + "/harness"
+	// OutDir receives work files, replays and evidence (VERIF_OUT lets a seeded-change
+	// evaluation run beside the registered checks without touching their files)
+	OutDir = envOr("VERIF_OUT", VerifDir)
 )
+
+func envOr(k, d string) string {
+	if v := os.Getenv(k); v != "" {
+		return v
+	}
+	return d
+}
 
 // verifDir: /verif, or the snapshot directory a background run works in.
 func verifDir() string {
@@ -349,10 +359,10 @@ func Run(id, tier string, seed int, workers int) int {
 		fmt.Println("unknown check", id)
 		return 2
 	}
-	workDir := filepath.Join(VerifDir, "work", id)
+	workDir := filepath.Join(OutDir, "work", id)
 	os.RemoveAll(workDir)
 	os.MkdirAll(workDir, 0o755)
-	replayDir := filepath.Join(VerifDir, "replays", id)
+	replayDir := filepath.Join(OutDir, "replays", id)
 	os.MkdirAll(replayDir, 0o755)
 
 	files := append([]vm.HarnessFile{zzvrtFile}, chk.Files...)
@@ -862,8 +872,8 @@ func writeEvidence(chk *Check, tier string, seed int, t0 time.Time, results []ca
 	ev := Evidence{PropertyID: chk.ID, Tier: tier, Seed: seed, Level: "model_checking", Coverage: cov,
 		Assumptions: chk.Assumptions, WallS: time.Since(t0).Seconds(), Violations: violations}
 	b, _ := json.MarshalIndent(ev, "", " ")
-	os.MkdirAll(VerifDir+"/evidence", 0o755)
-	os.WriteFile(VerifDir+"/evidence/"+chk.ID+".json", b, 0o644)
+	os.MkdirAll(OutDir+"/evidence", 0o755)
+	os.WriteFile(OutDir+"/evidence/"+chk.ID+".json", b, 0o644)
 }
 
 // Replay runs one stored counterexample natively and reports whether it reproduces.
@@ -894,7 +904,7 @@ func Replay(path string) int {
 		return 2
 	}
 	m := vm.New(ld.Prog, ld.Pkgs, vm.RepoModule)
-	workDir := filepath.Join(VerifDir, "work", "replay-"+hashStr(path))
+	workDir := filepath.Join(OutDir, "work", "replay-"+hashStr(path))
 	os.MkdirAll(workDir, 0o755)
 	defer os.RemoveAll(workDir)
 	abs, _ := filepath.Abs(path)
